@@ -49,16 +49,17 @@ def m_shr(a, k):
 # ----------------------------------------------------------------------------- plan
 def plan(tier, seed):
     specs = []
-    pair_max = 6 if tier == "quick" else 8
+    pair_max = 6 if tier == "quick" else 9
     for n in range(0, pair_max + 1):
         specs.append({"name": f"exh-len{n}", "kind": "exhaustive", "len_a": n, "pair_max": pair_max,
                       "unary_max": 8})
     if tier == "quick":
         specs.append({"name": "exh-unary-7-8", "kind": "unary_only", "lens": [7, 8]})
     nrand = 8 if tier == "quick" else 15
-    per = 1500 if tier == "quick" else 12000
+    per = 4000 if tier == "quick" else 300000
     for i in range(nrand):
-        specs.append({"name": f"rand{i}", "kind": "random", "index": i, "cases": per})
+        specs.append({"name": f"rand{i}", "kind": "random", "index": i, "cases": per,
+                      "budget_s": 60 if tier == "quick" else 420})
     specs.append({"name": "ctor-sweep", "kind": "ctor_sweep"})
     return specs
 
